@@ -3,6 +3,8 @@
 // for names, atoms, type constructors and user-defined types.
 #include "interp_util.hpp"
 
+#include <memory>
+
 namespace eng {
 using namespace ipr;
 
@@ -385,11 +387,29 @@ std::string render_trace(const World& w, std::size_t max_lines)
 // ================================================================== OPS =====
 namespace {
 
+// A word handed to the library the way a scanner would: a view into the middle of a larger buffer, with other
+// characters (not a NUL) right after it.  The buffer is exactly sized on the heap, so reading past it trips ASan, and a
+// callee that forgets the length of the view and re-measures it sees a longer word.
+struct Sliced {
+   std::unique_ptr<char8_t[]> buf;
+   std::size_t len;
+   explicit Sliced(const std::u8string& w) : buf(new char8_t[w.size() + 5]), len(w.size())
+   {
+      buf[0] = u8'=';
+      buf[1] = u8'"';
+      std::copy(w.begin(), w.end(), buf.get() + 2);
+      buf[2 + len] = u8'"';
+      buf[3 + len] = u8';';
+      buf[4 + len] = u8'x';
+   }
+   operator ipr::util::word_view() const { return ipr::util::word_view(buf.get() + 2, len); }
+};
+
 // ---------------------------------------------------------------- names ----
 void op_STRING(World& w, const Op& op)
 {
    auto sp = w.spelling(op.a, op.b);
-   auto& s = w.L().get_string(sp);
+   auto& s = w.L().get_string(Sliced(sp));
    auto again = [&w, sp] { return Entity{Aux::None, static_cast<const Node*>(&w.L().get_string(sp))}; };
    w.unified("get_string", T_STRING, "string|" + bytes(sp), ent(s), Category_code::String, again).exp("characters", Val::bytes(bytes(sp)));
    w.strs.push_back(&s);
@@ -407,7 +427,7 @@ void ident_common(World& w, const Identifier& id, const String& s, std::function
 void op_IDENT_W(World& w, const Op& op)
 {
    auto sp = w.spelling(op.a, op.b);
-   auto& id = w.L().get_identifier(sp);
+   auto& id = w.L().get_identifier(Sliced(sp));
    ident_common(w, id, w.L().get_string(sp), [&w, sp] { return ent(w.L().get_identifier(sp)); }, "get_identifier(word)");
 }
 
@@ -428,7 +448,7 @@ void operator_common(World& w, const Operator& o, const String& s, std::function
 void op_OPERATOR_W(World& w, const Op& op)
 {
    auto sp = w.spelling(op.a % 2 ? 3 : op.a, op.b);
-   auto& o = w.L().get_operator(sp);
+   auto& o = w.L().get_operator(Sliced(sp));
    operator_common(w, o, w.L().get_string(sp), [&w, sp] { return ent(w.L().get_operator(sp)); }, "get_operator(word)");
 }
 
@@ -534,7 +554,7 @@ void linkage_common(World& w, const Linkage& l, const std::string& sp, std::func
 void op_LINKAGE_W(World& w, const Op& op)
 {
    auto sp = w.spelling(op.a % 3 ? 6 : op.a, op.b);
-   auto& l = w.L().get_linkage(sp);
+   auto& l = w.L().get_linkage(Sliced(sp));
    linkage_common(w, l, bytes(sp), [&w, sp] { return Entity{Aux::Linkage, &w.L().get_linkage(sp)}; }, "get_linkage(word)");
 }
 
@@ -548,7 +568,7 @@ void op_LINKAGE_S(World& w, const Op& op)
 void op_CONVENTION(World& w, const Op& op)
 {
    auto sp = w.spelling(op.a % 3 ? 6 : op.a, op.b);
-   auto& c = w.L().get_calling_convention(sp);
+   auto& c = w.L().get_calling_convention(Sliced(sp));
    w.unified("get_calling_convention", T_CONVENTION, "convention|" + bytes(sp), Entity{Aux::Convention, &c}, Category_code::Unknown,
              [&w, sp] { return Entity{Aux::Convention, &w.L().get_calling_convention(sp)}; })
       .exp("spelling", Val::bytes(bytes(sp)));
@@ -652,7 +672,7 @@ void op_LITERAL(World& w, const Op& op)
    case 1: {
       auto sp = w.spelling(op.c, op.d);
       s = &w.L().get_string(sp);
-      lit = &w.L().get_literal(t, sp);
+      lit = &w.L().get_literal(t, Sliced(sp));
       factory = "get_literal(word)";
       break;
    }
@@ -660,7 +680,7 @@ void op_LITERAL(World& w, const Op& op)
    default: {
       auto sp = w.spelling(op.c, op.d);
       s = &w.L().get_string(sp);
-      lit = w.L().make_literal(t, sp);
+      lit = w.L().make_literal(t, Sliced(sp));
       factory = "make_literal(word)";
       break;
    }
@@ -842,6 +862,14 @@ void op_QUALIFIED(World& w, const Op& op)
       if (!main_ok || (it != w.first_by_key.end() && it->second.ptr != static_cast<const Node*>(&p)))
          w.findings.fail("C11:normal-form:get_qualified", "qualifying an already qualified type did not give Qualified(union, innermost)");
       w.findings.count("nested_qualification_requests");
+      // C01, on the normal-form key: the same (union, innermost) is one node, two different ones are two nodes
+      if (it != w.first_by_key.end() && it->second.ptr != static_cast<const Node*>(&p))
+         w.findings.fail("C01:repeat-differs:get_qualified(qualified operand)", "the request for " + printable(key) + " was answered by another node than before");
+      {
+         auto ko = w.key_of_entity.find(static_cast<const Node*>(&p));
+         if (ko != w.key_of_entity.end() && ko->second != key)
+            w.findings.fail("C01:distinct-args-same-node:get_qualified(qualified operand)", "requests " + printable(ko->second) + " and " + printable(key) + " share a node");
+      }
       if (!main_ok || it == w.first_by_key.end() || it->second.ptr != static_cast<const Node*>(&p)) {
          // keep the model consistent: only record results that are in normal form and agree with it
          if (!main_ok) return;
